@@ -364,6 +364,72 @@ Definition doc_ok (d : kdoc) : bool := negb (match d with [] => true | _ => fals
 
 End Kv2.
 
+(** * Part 3: the element graph behind a flat document *)
+Inductive gref := GElem (i : nat) | GNull | GStub (uuid_text : str).
+Inductive gitem := GStr (s : str) | GRef (r : gref).
+Record gattr := { ga_name : str; ga_type : str; ga_arr : bool; ga_items : list gitem }.
+Record gelem := { ge_type : str; ge_id : str; ge_name : str; ge_attrs : list gattr }.
+Definition gdoc := list gelem.
+
+(** writer: references become the UUID text of the element referred to *)
+Definition flat_item (ids : list str) (it : gitem) : kitem :=
+  match it with
+  | GStr s => KStr s
+  | GRef (GElem i) => KRef (nth i ids [])
+  | GRef GNull => KNull
+  | GRef (GStub u) => KRef u
+  end.
+Definition flat_attr (ids : list str) (a : gattr) : kattr :=
+  {| ka_name := ga_name a; ka_type := ga_type a; ka_arr := ga_arr a; ka_items := map (flat_item ids) (ga_items a) |}.
+Definition flat_elem (ids : list str) (e : gelem) : kelem :=
+  {| ke_type := ge_type e; ke_id := Some (ge_id e); ke_name := ge_name e; ke_attrs := map (flat_attr ids) (ge_attrs e) |}.
+Definition flatten (g : gdoc) : kdoc := map (flat_elem (map ge_id g)) g.
+
+(** reader: [id_to_elem[elem.uuid] = elem] while parsing (a later element with the same id replaces an earlier
+    one), then the fix-up pass: a referenced id that is in the table becomes that element, any other stays a stub *)
+Fixpoint last_index (u : str) (ids : list str) (base : nat) : option nat :=
+  match ids with
+  | [] => None
+  | x :: r => match last_index u r (S base) with
+              | Some i => Some i
+              | None => if str_eqb u x then Some base else None
+              end
+  end.
+Definition link_item (ids : list str) (it : kitem) : gitem :=
+  match it with
+  | KStr s => GStr s
+  | KNull => GRef GNull
+  | KRef u => GRef (match last_index u ids 0 with Some i => GElem i | None => GStub u end)
+  end.
+Definition link_attr (ids : list str) (a : kattr) : gattr :=
+  {| ga_name := ka_name a; ga_type := ka_type a; ga_arr := ka_arr a; ga_items := map (link_item ids) (ka_items a) |}.
+Fixpoint all_ids (d : kdoc) : option (list str) :=
+  match d with
+  | [] => Some []
+  | e :: r => match ke_id e, all_ids r with Some u, Some l => Some (u :: l) | _, _ => None end
+  end.
+(** [None]: an element without an id (it would get a random UUID) *)
+Definition link (d : kdoc) : option gdoc :=
+  match all_ids d with
+  | Some ids => Some (map (fun e => {| ge_type := ke_type e; ge_id := match ke_id e with Some u => u | None => [] end;
+                                       ge_name := ke_name e; ge_attrs := map (link_attr ids) (ke_attrs e) |}) d)
+  | None => None
+  end.
+
+(** what a graph must satisfy: ids pairwise distinct, element references in range, stub ids not ids of elements *)
+Fixpoint nodup_str (l : list str) : bool :=
+  match l with [] => true | x :: r => negb (existsb (str_eqb x) r) && nodup_str r end.
+Definition gitem_ok (ids : list str) (it : gitem) : bool :=
+  match it with
+  | GRef (GElem i) => Nat.ltb i (length ids)
+  | GRef (GStub u) => negb (existsb (str_eqb u) ids)
+  | _ => true
+  end.
+Definition graph_ok (g : gdoc) : bool :=
+  let ids := map ge_id g in
+  nodup_str ids && forallb (fun e => forallb (fun a => forallb (gitem_ok ids) (ga_items a)) (ge_attrs e)) g.
+
+
 (** * Hand copies of the pinned tree's tables, for examples (the check discharges the same conditions for the
     regenerated ones) *)
 Definition pinned_tables : tables := {|
@@ -389,3 +455,13 @@ Definition ex_kdoc : kdoc := [
                   {| ka_name := [119]; ka_type := s_element; ka_arr := false; ka_items := [KNull] |};
                   {| ka_name := [118]; ka_type := [105;110;116]; ka_arr := true; ka_items := [] |} ] |};
  {| ke_type := [85]; ke_id := None; ke_name := []; ke_attrs := [] |} ].
+
+(** the graph behind [ex_kdoc]-like data: a self reference, a reference to the second element, NULL, a stub *)
+Definition ex_gdoc : gdoc := [
+ {| ge_type := [84;34]; ge_id := [97;45;49]; ge_name := [110;10;92];
+    ge_attrs := [ {| ga_name := [120]; ga_type := [105;110;116]; ga_arr := false; ga_items := [GStr [53]] |};
+                  {| ga_name := [122]; ga_type := s_element; ga_arr := true;
+                     ga_items := [GRef GNull; GRef (GStub [98]); GRef (GElem 0); GRef (GElem 1); GRef (GElem 1)] |};
+                  {| ga_name := [119]; ga_type := s_element; ga_arr := false; ga_items := [GRef (GElem 1)] |} ] |};
+ {| ge_type := [85]; ge_id := [99;45;50]; ge_name := [];
+    ge_attrs := [ {| ga_name := [98;97;99;107]; ga_type := s_element; ga_arr := false; ga_items := [GRef (GElem 0)] |} ] |} ].
